@@ -35,7 +35,7 @@ func init() {
 		ID: "C18", Gen: genC18, Run: runC18, Quick: 700, Thorough: 150000,
 		Real: []string{"pkg/exporter InitExportingProcess TLS/DTLS client configuration (createClientConfig, dtls.Config)", "pkg/collector TLS server configuration (createServerConfig, client-certificate enforcement) and DTLS listener", "crypto/tls, crypto/x509, pion/dtls handshakes over the simulated network", "message path exporter -> collector for the delivered-messages clauses"},
 		Stub: []string{"OS sockets (simnet)", "wall clock (synctest bubble; moved across certificate validity windows = clock skew)", "tls.Dial's ServerName defaulting (simnet.TlsDial)", "adversarial peers: harness TLS server with capped version, plaintext sender, plaintext listener"},
-		Rule: "configuration matrix sampled by seed: server certificate {trusted, other CA, self-signed, expires day 20, valid from day 10, wrong SAN, no SAN, DNS-SAN only} x ServerName {unset, matching, mismatching, the dialled address in brackets, another address} x client certificate {none, trusted, other CA, expired} x collector client-CA {set, unset} x {tls, dtls} x handshake day {0, 15, 25} x peer max version {1.1, 1.2, 1.3} x collector certificate file {leaf, leaf + issuing CA}, plus plaintext peers, re-use of one client-configuration object across sessions, and 2-3 exporting processes with different configurations (CA, name, client certificate, connection-check interval) one after the other against one long-lived collector; every session is non-trivial; distinct = distinct configuration cell sequence",
+		Rule: "configuration matrix sampled by seed: server certificate {trusted, other CA, self-signed, expires day 20, valid from day 10, wrong SAN, no SAN, DNS-SAN only} x ServerName {unset, matching, mismatching, the dialled address in brackets, another address} x collector certificate file {leaf, leaf + issuer, leaf + a home-made certificate for the names the leaf lacks} x client certificate {none, trusted, other CA, expired} x collector client-CA {set, unset} x {tls, dtls} x handshake day {0, 15, 25} x peer max version {1.1, 1.2, 1.3} x collector certificate file {leaf, leaf + issuing CA}, plus plaintext peers, re-use of one client-configuration object across sessions, and 2-3 exporting processes with different configurations (CA, name, client certificate, connection-check interval) one after the other against one long-lived collector; every session is non-trivial; distinct = distinct configuration cell sequence",
 	})
 }
 
@@ -47,6 +47,9 @@ func genC18(seed uint64, tier string) *plan.Plan {
 	pl.Cfg["v6"] = int64(r.IntN(2))
 	pl.Cfg["idle_ns"] = int64(90 * 24 * time.Hour) // the clock is moved by whole days
 	pl.Cfg["bundle"] = int64(r.IntN(2))            // the collector's certificate file holds the leaf alone / leaf + issuing CA
+	if pl.Cfg["bundle"] == 1 && seed%3 == 0 {
+		pl.Cfg["bundle"] = 2 // ... / leaf + a home-made certificate for the names the leaf lacks
+	}
 	n := 1 + r.IntN(3)
 	if r.IntN(3) == 0 {
 		pl.Cfg["reuse"] = 1
@@ -143,6 +146,20 @@ func c18Expectation(proto, cert, day, snMode, cliCert, cliCA int, v6 bool, hostB
 }
 
 // expCA: the CA the exporter is configured with (0: the CA of the zoo, 1: the other CA).
+// c18ServerPEM is the collector's certificate file: the leaf alone, the leaf and its issuing CA, or
+// the leaf followed by a home-made certificate that lists what the leaf may be lacking (whatever
+// follows the first certificate is at most a candidate intermediate: names and trust are the leaf's).
+func c18ServerPEM(env *Env, srv certPair, z *zoo) []byte {
+	switch cfgOr(env.Plan, "bundle", 0) {
+	case 1:
+		return srv.serverPEM(true)
+	case 2:
+		env.Count("fault.server_certificate_followed_by_a_decoy", 1)
+		return append(append([]byte(nil), srv.CertPEM...), z.Decoy.CertPEM...)
+	}
+	return srv.CertPEM
+}
+
 func c18ExpectationCA(proto, cert, day, snMode, cliCert, cliCA int, v6 bool, hostB bool, expCA int) c18Expect {
 	chains := (cert != 1 && cert != 2 && expCA == 0) || (cert == 1 && expCA == 1)
 	validTime := true
@@ -412,7 +429,7 @@ func c18SendSome(ep *exporter.ExportingProcess) int {
 }
 
 func c18RealCollector(env *Env, where, addr string, proto int, srv certPair, clientCA bool, z *zoo, ein exporter.ExporterInput, e c18Expect, domain uint32) {
-	cin := collector.CollectorInput{Address: addr, Protocol: []string{"tcp", "udp"}[proto], MaxBufferSize: 65535, IsEncrypted: true, ServerCert: srv.serverPEM(cfgOr(env.Plan, "bundle", 0) == 1), ServerKey: srv.KeyPEM, TemplateTTL: 7200}
+	cin := collector.CollectorInput{Address: addr, Protocol: []string{"tcp", "udp"}[proto], MaxBufferSize: 65535, IsEncrypted: true, ServerCert: c18ServerPEM(env, srv, z), ServerKey: srv.KeyPEM, TemplateTTL: 7200}
 	if clientCA && proto == 0 {
 		cin.CACert = z.CA.PEM
 	}
@@ -572,7 +589,7 @@ func c18UnusableClientCA(env *Env, where, addr string, z *zoo, ein exporter.Expo
 // configuration: what an earlier exporting process of the same application was allowed to do says
 // nothing about a later one.
 func c18SharedCollector(env *Env, where, addr string, srv certPair, cert, cliCA, day int, v6 bool, z *zoo, ein exporter.ExporterInput, exps []plan.Op, domain0 uint32, cliCerts []certPair) {
-	cin := collector.CollectorInput{Address: addr, Protocol: "tcp", MaxBufferSize: 65535, IsEncrypted: true, ServerCert: srv.serverPEM(cfgOr(env.Plan, "bundle", 0) == 1), ServerKey: srv.KeyPEM, TemplateTTL: 7200}
+	cin := collector.CollectorInput{Address: addr, Protocol: "tcp", MaxBufferSize: 65535, IsEncrypted: true, ServerCert: c18ServerPEM(env, srv, z), ServerKey: srv.KeyPEM, TemplateTTL: 7200}
 	if cliCA == 1 {
 		cin.CACert = z.CA.PEM
 	}
